@@ -677,7 +677,8 @@ class CostFunction_GaussApproximation(CostFunction):
         self._needs_errors = False
         self._is_chi2 = False
         self._saturated = True
-        self._kafe2go_identifier = self.name
+        # key of STRING_TO_COST_FUNCTION (the method names are spelled "gaussian_...")
+        self._kafe2go_identifier = "gauss_approximation_covariance" if errors_to_use.lower() == "covariance" else "gauss_approximation_pointwise"
 
     def gaussian_approximation_covariance(self, data, model, total_cov_mat):
         r"""A least-squares cost function calculated from (`y`) data and model values,
